@@ -233,8 +233,109 @@ def scan_entry():
     return facts
 
 
+def scan_shared():
+    """write footprint on objects shared between parses (C15): class-level / module-level mutable objects of
+    lexer.py, parser.py, tokfmt.py, visitor.py must never be stored to, mutated through a method, or escape into
+    results (where a later in-place update could reach them)"""
+    import dataclasses
+    from cxxheaderparser import parser as P, lexer as L, tokfmt as TF, visitor as V
+    facts = {}
+    problems = []
+    MUT_METHODS = {"append", "extend", "add", "update", "clear", "pop", "remove", "insert", "setdefault", "discard", "popitem",
+                   "appendleft", "extendleft", "sort", "reverse"}
+
+    def mutable(v):
+        return isinstance(v, (set, dict, list)) or dataclasses.is_dataclass(v) and not isinstance(v, type)
+
+    def class_shared(cls):
+        return {k for k, v in vars(cls).items() if not k.startswith("__") and mutable(v)}
+
+    def check_class(mod, cls):
+        shared = class_shared(cls)
+        tree = ast.parse(inspect.getsource(mod))
+        cdef = [n for n in tree.body if isinstance(n, ast.ClassDef) and n.name == cls.__name__][0]
+        parents = {}
+        for node in ast.walk(cdef):
+            for ch in ast.iter_child_nodes(node):
+                parents[ch] = node
+        for fn in [n for n in cdef.body if isinstance(n, ast.FunctionDef)]:
+            for node in ast.walk(fn):
+                if not (isinstance(node, ast.Attribute) and node.attr in shared and isinstance(node.value, ast.Name)
+                        and node.value.id in ("self", "cls", cls.__name__)):
+                    continue
+                par = parents.get(node)
+                where = "%s.%s:%s" % (cls.__name__, fn.name, node.attr)
+                if isinstance(node.ctx, (ast.Store, ast.Del)):
+                    problems.append(where + ":store")
+                elif isinstance(par, ast.Compare):
+                    pass                      # x in self._set, y == self._const
+                elif isinstance(par, ast.Attribute) and par.attr in ("get", "keys", "values", "items", "__contains__"):
+                    pass
+                elif isinstance(par, ast.Attribute) and par.attr in MUT_METHODS:
+                    problems.append(where + ":mutating-call")
+                elif isinstance(par, ast.Subscript) and isinstance(par.ctx, ast.Load) and par.value is node:
+                    pass
+                elif isinstance(par, ast.Subscript):
+                    problems.append(where + ":subscript-store")
+                elif isinstance(par, (ast.For, ast.comprehension)) and getattr(par, "iter", None) is node:
+                    pass
+                elif isinstance(par, ast.Starred):
+                    pass                      # *self._set: unpacked into call arguments, elements are str
+                elif isinstance(par, ast.Assign) and len(par.targets) == 1 and isinstance(par.targets[0], ast.Name) and \
+                        isinstance(vars(cls)[node.attr], (set, dict)):
+                    # local alias of a set/dict (`token_map = self._balanced_token_map`): the alias must only be read
+                    alias = par.targets[0].id
+                    for n2 in ast.walk(fn):
+                        if isinstance(n2, ast.Attribute) and isinstance(n2.value, ast.Name) and n2.value.id == alias and n2.attr in MUT_METHODS:
+                            problems.append(where + ":alias-mutated")
+                        if isinstance(n2, ast.Subscript) and isinstance(n2.value, ast.Name) and n2.value.id == alias and not isinstance(n2.ctx, ast.Load):
+                            problems.append(where + ":alias-subscript-store")
+                elif isinstance(par, ast.Call) and node in par.args and isinstance(vars(cls)[node.attr], (set, dict)) and \
+                        isinstance(par.func, ast.Attribute) and par.func.attr in ("token_if_in_set",):
+                    pass
+                elif isinstance(par, ast.BoolOp) or isinstance(par, ast.IfExp):
+                    pass
+                else:
+                    problems.append(where + ":escapes(%s)" % type(par).__name__)
+
+    check_class(P, P.CxxParser)
+    check_class(L, L.TokenStream)
+    check_class(L, L.LexerTokenStream)
+    check_class(L, L.PlyLexer)
+    # module-level shared objects: PhonyEnding, null_visitor, _want_spacing, PlyLexer._lexer
+    for mod, names in ((P, {"PhonyEnding", "null_visitor"}), (L, {"PhonyEnding"}), (TF, {"_want_spacing", "_fuse_pairs"})):
+        tree = ast.parse(inspect.getsource(mod))
+        for fn in ast.walk(tree):
+            if not isinstance(fn, ast.FunctionDef):
+                continue
+            for node in ast.walk(fn):
+                if isinstance(node, ast.Attribute) and isinstance(node.value, ast.Name) and node.value.id in names:
+                    if isinstance(node.ctx, (ast.Store, ast.Del)) or node.attr in MUT_METHODS:
+                        problems.append("%s.%s:%s.%s" % (mod.__name__.split(".")[-1], fn.name, node.value.id, node.attr))
+                if isinstance(node, ast.Subscript) and isinstance(node.value, ast.Name) and node.value.id in names and not isinstance(node.ctx, ast.Load):
+                    problems.append("%s.%s:%s[...]" % (mod.__name__.split(".")[-1], fn.name, node.value.id))
+                if isinstance(node, ast.Global):
+                    problems.append("%s.%s:global" % (mod.__name__.split(".")[-1], fn.name))
+    # the lexer prototype: built once in __new__, every instance works on a clone
+    src = inspect.getsource(L.PlyLexer.__new__)
+    proto_ok = ("if cls._lexer is None:\n            cls._lexer = lex.lex(module=inst)" in src and
+                "inst.lex = cls._lexer.clone(inst)" in src)
+    uses = []
+    tree = ast.parse(inspect.getsource(L))
+    for fn in ast.walk(tree):
+        if isinstance(fn, ast.FunctionDef):
+            for node in ast.walk(fn):
+                if isinstance(node, ast.Attribute) and node.attr == "_lexer":
+                    uses.append(fn.name)
+    proto_ok = proto_ok and set(uses) <= {"__new__"}
+    facts["shared_objects_never_stored_to"] = (not problems, problems)
+    facts["lexer_prototype_only_cloned"] = (proto_ok, sorted(set(uses)))
+    return facts
+
+
 def generate():
     facts = {}
+    facts.update(scan_shared())
     facts.update(scan_parser())
     facts.update(scan_parse_wrapper())
     facts.update(scan_verbose())
